@@ -1,7 +1,783 @@
-//! Typed Rust families for C01 (placeholder: filled in below)
-use crate::driver::Ctx;
-use crate::tape::Tape;
+//! Typed Rust families for C01: ordinary Rust data types (structs, enums-as-unions,
+//! Option, maps, sequences, borrowed `&str`/`&[u8]`) paired with Avro schemas whose
+//! *spelling* (field order, union branch order, where null stands) is drawn from the
+//! tape. Oracle per case:
+//!   1. `to_datum_vec(&v, S)` is Ok and the bytes decode under the reference decoder
+//!      (schema read by the model's own JSON reader), consuming everything;
+//!   2. `from_datum_slice::<T>` of those bytes == v (floats bit-exact);
+//!   3. `from_datum_reader::<T>` through a tape-chosen chunking == v, consuming exactly
+//!      the bytes (owned families);
+//!   4. the same value re-encoded by the reference encoder in a tape-chosen *layout*
+//!      (several blocks, negative counts) also deserialises to v;
+//!   5. borrowed `&str`/`&[u8]` point inside the input slice.
 
-pub fn run_typed(_t: &mut Tape, ctx: &mut Ctx) {
-	ctx.label("typed:none-yet");
+use crate::driver::Ctx;
+use crate::io::ChunkedReader;
+use crate::model::*;
+use crate::props::common::{gen_partition, hex, trunc};
+use crate::tape::Tape;
+use serde::de::DeserializeOwned;
+use serde::{Deserialize, Serialize};
+use serde_avro_fast::ser::SerializerConfig;
+use serde_bytes::ByteBuf;
+use std::borrow::Cow;
+use std::collections::{BTreeMap, HashMap};
+use std::fmt::Debug;
+
+// ---------------------------------------------------------------------------------------
+// bit-exact floats
+
+#[derive(Clone, Copy, Debug, Serialize, Deserialize)]
+#[serde(transparent)]
+pub struct F32(pub f32);
+impl PartialEq for F32 {
+	fn eq(&self, o: &Self) -> bool {
+		self.0.to_bits() == o.0.to_bits()
+	}
+}
+#[derive(Clone, Copy, Debug, Serialize, Deserialize)]
+#[serde(transparent)]
+pub struct F64(pub f64);
+impl PartialEq for F64 {
+	fn eq(&self, o: &Self) -> bool {
+		self.0.to_bits() == o.0.to_bits()
+	}
+}
+
+fn g_f32(t: &mut Tape) -> F32 {
+	const S: &[u32] = &[0, 0x8000_0000, 0x3f80_0000, 0x7f80_0000, 0xff80_0000, 0x7fc0_0000, 0x7fa0_0001, 0xffc0_1234, 1, 0x7f7f_ffff];
+	F32(f32::from_bits(if t.chance(90) { *t.pick(S) } else { t.u32() }))
+}
+fn g_f64(t: &mut Tape) -> F64 {
+	const S: &[u64] = &[0, 0x8000_0000_0000_0000, 0x3ff0_0000_0000_0000, 0x7ff0_0000_0000_0000, 0xfff0_0000_0000_0000, 0x7ff8_0000_0000_0000, 0x7ff4_0000_0000_0001, 0xfff8_0000_dead_beef, 1, 0x7fef_ffff_ffff_ffff];
+	F64(f64::from_bits(if t.chance(90) { *t.pick(S) } else { t.u64() }))
+}
+fn g_str(t: &mut Tape) -> String {
+	gen_string(t, 300)
+}
+fn g_key(t: &mut Tape) -> String {
+	gen_string(t, 24)
+}
+fn g_vec<T>(t: &mut Tape, max: usize, mut f: impl FnMut(&mut Tape) -> T) -> Vec<T> {
+	let n = t.small(max);
+	(0..n).map(|_| f(t)).collect()
+}
+fn g_map<T>(t: &mut Tape, max: usize, mut f: impl FnMut(&mut Tape) -> T) -> BTreeMap<String, T> {
+	let n = t.small(max);
+	(0..n).map(|_| (g_key(t), f(t))).collect()
+}
+fn g_opt<T>(t: &mut Tape, f: impl FnOnce(&mut Tape) -> T) -> Option<T> {
+	if t.chance(96) {
+		None
+	} else {
+		Some(f(t))
+	}
+}
+
+// ---------------------------------------------------------------------------------------
+// schema text with tape-chosen spelling
+
+/// Named types are written in full where they first occur in the text, by name afterwards.
+#[derive(Default)]
+pub struct Defs {
+	seen: Vec<&'static str>,
+}
+impl Defs {
+	fn named(&mut self, fullname: &'static str, def: impl FnOnce(&mut Defs) -> String) -> String {
+		if self.seen.contains(&fullname) {
+			format!("\"{fullname}\"")
+		} else {
+			self.seen.push(fullname);
+			def(self)
+		}
+	}
+}
+type FieldFn = Box<dyn Fn(&mut Tape, &mut Defs) -> String>;
+
+fn shuffle<T>(t: &mut Tape, v: &mut Vec<T>) {
+	if t.chance(128) {
+		for i in (1..v.len()).rev() {
+			let j = t.below(i + 1);
+			v.swap(i, j);
+		}
+	}
+}
+fn record(t: &mut Tape, d: &mut Defs, fullname: &'static str, fields: Vec<(&'static str, FieldFn)>) -> String {
+	// the name is registered before the fields are spelled so that recursive references work
+	if d.seen.contains(&fullname) {
+		return format!("\"{fullname}\"");
+	}
+	d.seen.push(fullname);
+	let mut fields = fields;
+	shuffle(t, &mut fields);
+	let fs: Vec<String> = fields.iter().map(|(n, f)| format!("{{\"name\":\"{n}\",\"type\":{}}}", f(t, d))).collect();
+	format!("{{\"type\":\"record\",\"name\":\"{fullname}\",\"fields\":[{}]}}", fs.join(","))
+}
+fn union(t: &mut Tape, d: &mut Defs, branches: Vec<FieldFn>) -> String {
+	let mut branches = branches;
+	shuffle(t, &mut branches);
+	let bs: Vec<String> = branches.iter().map(|f| f(t, d)).collect();
+	format!("[{}]", bs.join(","))
+}
+fn prim(word: &'static str) -> FieldFn {
+	Box::new(move |_, _| format!("\"{word}\""))
+}
+fn lit(text: &'static str) -> FieldFn {
+	Box::new(move |_, _| text.to_string())
+}
+fn nullable(inner: FieldFn) -> FieldFn {
+	Box::new(move |t, d| {
+		let null_first = !t.chance(110);
+		let i = inner(t, d);
+		if null_first {
+			format!("[\"null\",{i}]")
+		} else {
+			format!("[{i},\"null\"]")
+		}
+	})
+}
+fn array(inner: FieldFn) -> FieldFn {
+	Box::new(move |t, d| format!("{{\"type\":\"array\",\"items\":{}}}", inner(t, d)))
+}
+fn map(inner: FieldFn) -> FieldFn {
+	Box::new(move |t, d| format!("{{\"type\":\"map\",\"values\":{}}}", inner(t, d)))
+}
+
+// ---------------------------------------------------------------------------------------
+// the families
+
+pub trait Fam: Serialize + PartialEq + Debug + Sized {
+	const NAME: &'static str;
+	fn schema(t: &mut Tape, d: &mut Defs) -> String;
+	fn gen(t: &mut Tape) -> Self;
+}
+
+// A: all primitives and integer widths
+#[derive(Serialize, Deserialize, Debug, PartialEq, Clone)]
+pub struct Prims {
+	b: bool,
+	i: i32,
+	l: i64,
+	f: F32,
+	d: F64,
+	s: String,
+	#[serde(with = "serde_bytes")]
+	y: Vec<u8>,
+	n: (),
+	w8: u8,
+	w16: u16,
+	w32: u32,
+	w64: u64,
+	s8: i8,
+	s16: i16,
+	c: char,
+}
+impl Fam for Prims {
+	const NAME: &'static str = "prims";
+	fn schema(t: &mut Tape, d: &mut Defs) -> String {
+		record(
+			t,
+			d,
+			"Prims",
+			vec![
+				("b", prim("boolean")),
+				("i", prim("int")),
+				("l", prim("long")),
+				("f", prim("float")),
+				("d", prim("double")),
+				("s", prim("string")),
+				("y", prim("bytes")),
+				("n", prim("null")),
+				("w8", prim("int")),
+				("w16", prim("int")),
+				("w32", prim("long")),
+				("w64", prim("long")),
+				("s8", prim("int")),
+				("s16", prim("int")),
+				("c", prim("string")),
+			],
+		)
+	}
+	fn gen(t: &mut Tape) -> Self {
+		Prims {
+			b: t.bool(),
+			i: gen_i32(t),
+			l: gen_i64(t),
+			f: g_f32(t),
+			d: g_f64(t),
+			s: g_str(t),
+			y: gen_bytes(t, 300),
+			n: (),
+			w8: t.byte(),
+			w16: t.u16(),
+			w32: if t.chance(64) { u32::MAX } else { t.u32() },
+			w64: (gen_i64(t) as u64) & (i64::MAX as u64),
+			s8: t.byte() as i8,
+			s16: t.u16() as i16,
+			c: char::from_u32(t.u32() % 0x11_0000).unwrap_or('x'),
+		}
+	}
+}
+
+#[derive(Serialize, Deserialize, Debug, PartialEq, Clone)]
+pub struct Inner {
+	x: i32,
+	y: String,
+}
+fn inner_schema() -> FieldFn {
+	Box::new(|t, d| record(t, d, "tns.Inner", vec![("x", prim("int")), ("y", prim("string"))]))
+}
+fn g_inner(t: &mut Tape) -> Inner {
+	Inner { x: gen_i32(t), y: g_str(t) }
+}
+
+// B: Option in every position, null first or last
+#[derive(Serialize, Deserialize, Debug, PartialEq, Clone)]
+pub struct Opts {
+	a: Option<i32>,
+	b: Option<String>,
+	c: Option<Vec<i64>>,
+	d: Option<Inner>,
+	e: Option<F64>,
+	f: Option<BTreeMap<String, Option<bool>>>,
+	g: Vec<Option<Inner>>,
+	h: Option<Box<Opts>>,
+}
+impl Fam for Opts {
+	const NAME: &'static str = "options";
+	fn schema(t: &mut Tape, d: &mut Defs) -> String {
+		record(
+			t,
+			d,
+			"Opts",
+			vec![
+				("a", nullable(prim("int"))),
+				("b", nullable(prim("string"))),
+				("c", nullable(array(prim("long")))),
+				("d", nullable(inner_schema())),
+				("e", nullable(prim("double"))),
+				("f", nullable(map(nullable(prim("boolean"))))),
+				("g", array(nullable(inner_schema()))),
+				("h", nullable(lit("\"Opts\""))),
+			],
+		)
+	}
+	fn gen(t: &mut Tape) -> Self {
+		fn go(t: &mut Tape, depth: usize) -> Opts {
+			Opts {
+				a: g_opt(t, gen_i32),
+				b: g_opt(t, g_str),
+				c: g_opt(t, |t| g_vec(t, 6, gen_i64)),
+				d: g_opt(t, g_inner),
+				e: g_opt(t, g_f64),
+				f: g_opt(t, |t| g_map(t, 4, |t| g_opt(t, |t| t.bool()))),
+				g: g_vec(t, 4, |t| g_opt(t, g_inner)),
+				h: if depth < 3 && t.chance(80) { Some(Box::new(go(t, depth + 1))) } else { None },
+			}
+		}
+		go(t, 0)
+	}
+}
+
+// C: nested collections, hash maps, records inside collections
+#[derive(Serialize, Deserialize, Debug, PartialEq, Clone)]
+pub struct Colls {
+	v: Vec<Vec<String>>,
+	m: HashMap<String, i64>,
+	bm: BTreeMap<String, Vec<Option<F64>>>,
+	recs: Vec<Inner>,
+	mr: BTreeMap<String, Inner>,
+	bytes: Vec<ByteBuf>,
+	nested: BTreeMap<String, BTreeMap<String, Vec<i32>>>,
+}
+impl Fam for Colls {
+	const NAME: &'static str = "collections";
+	fn schema(t: &mut Tape, d: &mut Defs) -> String {
+		record(
+			t,
+			d,
+			"c.Colls",
+			vec![
+				("v", array(array(prim("string")))),
+				("m", map(prim("long"))),
+				("bm", map(array(nullable(prim("double"))))),
+				("recs", array(inner_schema())),
+				("mr", map(inner_schema())),
+				("bytes", array(prim("bytes"))),
+				("nested", map(map(array(prim("int"))))),
+			],
+		)
+	}
+	fn gen(t: &mut Tape) -> Self {
+		Colls {
+			v: g_vec(t, 5, |t| g_vec(t, 5, g_str)),
+			m: g_map(t, 6, gen_i64).into_iter().collect(),
+			bm: g_map(t, 4, |t| g_vec(t, 4, |t| g_opt(t, g_f64))),
+			recs: g_vec(t, 5, g_inner),
+			mr: g_map(t, 4, g_inner),
+			bytes: g_vec(t, 4, |t| ByteBuf::from(gen_bytes(t, 100))),
+			nested: g_map(t, 3, |t| g_map(t, 3, |t| g_vec(t, 4, gen_i32))),
+		}
+	}
+}
+
+// D: enums as unions (variant name = branch name), unit-only enum as Avro enum
+#[derive(Serialize, Deserialize, Debug, PartialEq, Clone, Copy)]
+pub enum Suit {
+	Spades,
+	Hearts,
+	Diamonds,
+	Clubs,
+}
+fn suit_schema() -> FieldFn {
+	Box::new(|_, d| d.named("tns.Suit", |_| r#"{"type":"enum","name":"tns.Suit","symbols":["Spades","Hearts","Diamonds","Clubs"]}"#.to_string()))
+}
+fn g_suit(t: &mut Tape) -> Suit {
+	*t.pick(&[Suit::Spades, Suit::Hearts, Suit::Diamonds, Suit::Clubs])
+}
+#[derive(Serialize, Deserialize, Debug, PartialEq, Clone)]
+pub struct RecB {
+	k: i64,
+	tags: Vec<String>,
+}
+#[derive(Serialize, Deserialize, Debug, PartialEq, Clone)]
+pub enum U {
+	Null,
+	Boolean(bool),
+	Int(i32),
+	Long(i64),
+	Float(F32),
+	Double(F64),
+	String(String),
+	Bytes(ByteBuf),
+	Array(Vec<i32>),
+	Map(BTreeMap<String, String>),
+	RecA {
+		x: i32,
+		y: Option<String>,
+	},
+	#[serde(rename = "tns.RecB")]
+	RecB(RecB),
+	#[serde(rename = "tns.Suit")]
+	Suit(Suit),
+	Fx4(ByteBuf),
+}
+const U_BRANCHES: usize = 14;
+fn u_branch_schema(i: usize) -> FieldFn {
+	match i {
+		0 => prim("null"),
+		1 => prim("boolean"),
+		2 => prim("int"),
+		3 => prim("long"),
+		4 => prim("float"),
+		5 => prim("double"),
+		6 => prim("string"),
+		7 => prim("bytes"),
+		8 => array(prim("int")),
+		9 => map(prim("string")),
+		10 => Box::new(|t, d| record(t, d, "RecA", vec![("x", prim("int")), ("y", nullable(prim("string")))])),
+		11 => Box::new(|t, d| record(t, d, "tns.RecB", vec![("k", prim("long")), ("tags", array(prim("string")))])),
+		12 => suit_schema(),
+		_ => Box::new(|_, d| d.named("Fx4", |_| r#"{"type":"fixed","name":"Fx4","size":4}"#.to_string())),
+	}
+}
+fn g_u(t: &mut Tape, present: &[usize]) -> U {
+	match *t.pick(present) {
+		0 => U::Null,
+		1 => U::Boolean(t.bool()),
+		2 => U::Int(gen_i32(t)),
+		3 => U::Long(gen_i64(t)),
+		4 => U::Float(g_f32(t)),
+		5 => U::Double(g_f64(t)),
+		6 => U::String(g_str(t)),
+		7 => U::Bytes(ByteBuf::from(gen_bytes(t, 100))),
+		8 => U::Array(g_vec(t, 5, gen_i32)),
+		9 => U::Map(g_map(t, 4, g_str)),
+		10 => U::RecA { x: gen_i32(t), y: g_opt(t, g_str) },
+		11 => U::RecB(RecB { k: gen_i64(t), tags: g_vec(t, 4, g_str) }),
+		12 => U::Suit(g_suit(t)),
+		_ => U::Fx4(ByteBuf::from(t.bytes(4))),
+	}
+}
+/// `{ first: Suit, us: [U], by_key: {string: U}?, last: U }` - the union is spelled once (it owns
+/// named types) as the item type of `us`; `last` repeats the same branch set with named types by reference.
+#[derive(Serialize, Deserialize, Debug, PartialEq, Clone)]
+pub struct Unions {
+	first: Suit,
+	us: Vec<U>,
+	last: U,
+	suits: BTreeMap<String, Suit>,
+}
+pub struct UnionsCase {
+	present: Vec<usize>,
+}
+impl UnionsCase {
+	fn draw(t: &mut Tape) -> Self {
+		let mut present: Vec<usize> = (0..U_BRANCHES).filter(|_| t.chance(140)).collect();
+		if present.is_empty() {
+			present.push(t.below(U_BRANCHES));
+		}
+		UnionsCase { present }
+	}
+	fn schema(&self, t: &mut Tape, d: &mut Defs) -> String {
+		let p1 = self.present.clone();
+		let p2 = self.present.clone();
+		record(
+			t,
+			d,
+			"Unions",
+			vec![
+				("first", suit_schema()),
+				("us", array(Box::new(move |t, d| union(t, d, p1.iter().map(|i| u_branch_schema(*i)).collect())))),
+				("last", Box::new(move |t, d| union(t, d, p2.iter().map(|i| u_branch_schema(*i)).collect()))),
+				("suits", map(suit_schema())),
+			],
+		)
+	}
+	fn gen(&self, t: &mut Tape) -> Unions {
+		Unions { first: g_suit(t), us: g_vec(t, 8, |t| g_u(t, &self.present)), last: g_u(t, &self.present), suits: g_map(t, 4, g_suit) }
+	}
+}
+
+// E: recursive types
+#[derive(Serialize, Deserialize, Debug, PartialEq, Clone)]
+pub struct List {
+	v: i64,
+	next: Option<Box<List>>,
+}
+#[derive(Serialize, Deserialize, Debug, PartialEq, Clone)]
+pub struct Tree {
+	label: String,
+	kids: Vec<Tree>,
+	by_name: BTreeMap<String, Tree>,
+	list: Option<List>,
+}
+impl Fam for Tree {
+	const NAME: &'static str = "recursive";
+	fn schema(t: &mut Tape, d: &mut Defs) -> String {
+		record(
+			t,
+			d,
+			"r.Tree",
+			vec![
+				("label", prim("string")),
+				("kids", array(lit("\"r.Tree\""))),
+				("by_name", map(lit("\"r.Tree\""))),
+				("list", nullable(Box::new(|t, d| record(t, d, "r.List", vec![("v", prim("long")), ("next", nullable(lit("\"r.List\"")))])))),
+			],
+		)
+	}
+	fn gen(t: &mut Tape) -> Self {
+		fn list(t: &mut Tape) -> List {
+			let n = t.small(12);
+			let mut l = List { v: gen_i64(t), next: None };
+			for _ in 0..n {
+				l = List { v: gen_i64(t), next: Some(Box::new(l)) };
+			}
+			l
+		}
+		fn go(t: &mut Tape, depth: usize) -> Tree {
+			let (nk, nm) = if depth >= 3 { (0, 0) } else { (t.small(3), t.small(2)) };
+			Tree { label: g_str(t), kids: (0..nk).map(|_| go(t, depth + 1)).collect(), by_name: (0..nm).map(|_| (g_key(t), go(t, depth + 1))).collect(), list: g_opt(t, list) }
+		}
+		go(t, 0)
+	}
+}
+
+// F: logical types through ordinary Rust types
+#[derive(Serialize, Deserialize, Debug, PartialEq, Clone)]
+pub struct Logical {
+	dur: (u32, u32, u32),
+	dec_b: rust_decimal::Decimal,
+	dec_f: rust_decimal::Decimal,
+	dec_opt: Option<rust_decimal::Decimal>,
+	date: i32,
+	tms: i64,
+	tus: i64,
+	uuid: String,
+	id: Id,
+	fx: ByteBuf,
+}
+#[derive(Serialize, Deserialize, Debug, PartialEq, Clone)]
+pub struct Id(u64);
+impl Fam for Logical {
+	const NAME: &'static str = "logical";
+	fn schema(t: &mut Tape, d: &mut Defs) -> String {
+		record(
+			t,
+			d,
+			"Logical",
+			vec![
+				("dur", lit(r#"{"type":"fixed","name":"Dur","size":12,"logicalType":"duration"}"#)),
+				("dec_b", lit(r#"{"type":"bytes","logicalType":"decimal","precision":24,"scale":3}"#)),
+				("dec_f", lit(r#"{"type":"fixed","name":"DecF","size":12,"logicalType":"decimal","precision":24,"scale":5}"#)),
+				("dec_opt", nullable(lit(r#"{"type":"bytes","logicalType":"decimal","precision":10}"#))),
+				("date", lit(r#"{"type":"int","logicalType":"date"}"#)),
+				("tms", lit(r#"{"type":"long","logicalType":"timestamp-millis"}"#)),
+				("tus", lit(r#"{"type":"long","logicalType":"time-micros"}"#)),
+				("uuid", lit(r#"{"type":"string","logicalType":"uuid"}"#)),
+				("id", prim("long")),
+				("fx", lit(r#"{"type":"fixed","name":"Fx7","size":7}"#)),
+			],
+		)
+	}
+	fn gen(t: &mut Tape) -> Self {
+		fn dec(t: &mut Tape, scale: u32) -> rust_decimal::Decimal {
+			// at most `scale` fractional digits (more would be a documented lossy rescale)
+			let s = t.below(scale as usize + 1) as u32;
+			let m = match t.below(3) {
+				0 => (t.byte() as i8) as i64,
+				1 => t.u32() as i32 as i64,
+				_ => (t.u64() as i64) / 4,
+			};
+			rust_decimal::Decimal::new(m, s)
+		}
+		Logical {
+			dur: (t.u32(), t.u32(), if t.bool() { u32::MAX } else { t.u32() }),
+			dec_b: dec(t, 3),
+			dec_f: dec(t, 5),
+			dec_opt: g_opt(t, |t| dec(t, 0)),
+			date: gen_i32(t),
+			tms: gen_i64(t),
+			tus: gen_i64(t),
+			uuid: format!("{:08x}-{:04x}-{:04x}-{:04x}-{:012x}", t.u32(), t.u16(), t.u16(), t.u16(), t.u64() & 0xffff_ffff_ffff),
+			id: Id((gen_i64(t) as u64) & (i64::MAX as u64)),
+			fx: ByteBuf::from(t.bytes(7)),
+		}
+	}
+}
+
+// G: borrowed targets (slice input only)
+#[derive(Serialize, Deserialize, Debug, PartialEq, Clone)]
+pub struct Borrowed<'a> {
+	s: &'a str,
+	#[serde(with = "serde_bytes")]
+	b: &'a [u8],
+	#[serde(borrow)]
+	c: Cow<'a, str>,
+	#[serde(borrow)]
+	v: Vec<&'a str>,
+	#[serde(borrow)]
+	o: Option<&'a str>,
+	#[serde(borrow)]
+	m: BTreeMap<&'a str, &'a str>,
+	n: i32,
+}
+#[derive(Debug, Clone)]
+pub struct BorrowedOwned {
+	s: String,
+	b: Vec<u8>,
+	c: String,
+	v: Vec<String>,
+	o: Option<String>,
+	m: BTreeMap<String, String>,
+	n: i32,
+}
+fn borrowed_schema(t: &mut Tape, d: &mut Defs) -> String {
+	record(
+		t,
+		d,
+		"Borrowed",
+		vec![("s", prim("string")), ("b", prim("bytes")), ("c", prim("string")), ("v", array(prim("string"))), ("o", nullable(prim("string"))), ("m", map(prim("string"))), ("n", prim("int"))],
+	)
+}
+
+// ---------------------------------------------------------------------------------------
+// runners
+
+struct Prepared {
+	json: String,
+	cs: serde_avro_fast::Schema,
+	ms: MSchema,
+}
+fn prepare(json: String, ctx: &mut Ctx) -> Option<Prepared> {
+	let cs: serde_avro_fast::Schema = match json.parse() {
+		Ok(s) => s,
+		Err(e) => {
+			ctx.violation("C01/typed/valid-schema-rejected", format!("schema {json}: {e}"));
+			return None;
+		}
+	};
+	let ms = match parse_json_schema(&json) {
+		Ok(m) => m,
+		Err(e) => panic!("harness bug: typed family schema not readable by the model: {e} in {json}"),
+	};
+	Some(Prepared { json, cs, ms })
+}
+
+/// serialise; reference-decode; returns the bytes and a second encoding of the same value in a tape-chosen layout
+fn ser_and_relayout<T: Serialize + Debug>(fam: &str, v: &T, p: &Prepared, t: &mut Tape, ctx: &mut Ctx) -> Option<(Vec<u8>, Vec<u8>)> {
+	let mut sc = SerializerConfig::new(&p.cs);
+	let bytes = match serde_avro_fast::to_datum_vec(v, &mut sc) {
+		Ok(b) => b,
+		Err(e) => {
+			ctx.violation(format!("C01/typed/serialize-failed/{fam}"), format!("schema {} value {:?}: {e}", p.json, v));
+			return None;
+		}
+	};
+	let env = Env::new(&p.ms);
+	let mv = match decode_strict(&env, &p.ms, &bytes) {
+		Ok((mv, n)) if n == bytes.len() => mv,
+		Ok((_, n)) => {
+			ctx.violation(format!("C01/typed/bytes-not-a-valid-encoding/{fam}"), format!("schema {} value {:?} -> bytes {}: reference decoder consumed {n} of {}", p.json, v, hex(&bytes), bytes.len()));
+			return None;
+		}
+		Err(e) => {
+			ctx.violation(format!("C01/typed/bytes-not-a-valid-encoding/{fam}"), format!("schema {} value {:?} -> bytes {}: reference decoder: {e}", p.json, v, hex(&bytes)));
+			return None;
+		}
+	};
+	let mut alt = Vec::new();
+	let mut layout = Layout::Tape(t);
+	let mut enc = Encoder::new(&env, &mut layout);
+	enc.encode(&p.ms, &mv, &mut alt).unwrap_or_else(|e| panic!("harness bug: reference encoder failed on a decoded value: {e}"));
+	if enc.stats.multi_block + enc.stats.negative_blocks > 0 {
+		ctx.label("typed:relayout-multi-or-negative-blocks");
+	}
+	Some((bytes, alt))
+}
+
+fn check_owned<T: Serialize + DeserializeOwned + PartialEq + Debug>(fam: &str, v: &T, p: &Prepared, t: &mut Tape, ctx: &mut Ctx) {
+	let Some((bytes, alt)) = ser_and_relayout(fam, v, p, t, ctx) else { return };
+	let (sizes, tail) = gen_partition(t, bytes.len());
+	for (which, data) in [("crate-bytes", &bytes), ("reference-layout", &alt)] {
+		match serde_avro_fast::from_datum_slice::<T>(data, &p.cs) {
+			Ok(back) => {
+				if &back != v {
+					ctx.violation(format!("C01/typed/round-trip-mismatch/slice/{fam}"), format!("schema {} value {:?} -> {which} {} -> {:?}", p.json, v, hex(data), back));
+				}
+			}
+			Err(e) => ctx.violation(format!("C01/typed/deserialize-failed/slice/{fam}"), format!("schema {} value {:?} -> {which} {}: {e}", p.json, v, hex(data))),
+		}
+		let mut rd = ChunkedReader::new(data, sizes.clone(), tail);
+		match serde_avro_fast::from_datum_reader::<_, T>(&mut rd, &p.cs) {
+			Ok(back) => {
+				if &back != v {
+					ctx.violation(format!("C01/typed/round-trip-mismatch/reader/{fam}"), format!("schema {} value {:?} -> {which} {} -> {:?} (chunks {:?}/{tail})", p.json, v, hex(data), back, sizes));
+				}
+				if rd.consumed() != data.len() {
+					ctx.violation(format!("C01/typed/decoder-consumed-mismatch/reader/{fam}"), format!("schema {} {which} {}: consumed {} of {}", p.json, hex(data), rd.consumed(), data.len()));
+				}
+			}
+			Err(e) => ctx.violation(format!("C01/typed/deserialize-failed/reader/{fam}"), format!("schema {} value {:?} -> {which} {}: {e} (chunks {:?}/{tail})", p.json, v, hex(data), sizes)),
+		}
+		if rd.over_consumed {
+			ctx.violation("C01/bufread-over-consume", "consume() beyond the exposed buffer");
+		}
+	}
+	finish(fam, v, p, &bytes, ctx);
+}
+
+fn finish<T: Debug>(fam: &str, v: &T, p: &Prepared, bytes: &[u8], ctx: &mut Ctx) {
+	ctx.label(format!("typed:{fam}"));
+	ctx.nontrivial = true;
+	ctx.hash_case(&format!("{}|{:?}", p.json, v));
+	if ctx.want_sample {
+		ctx.sample = Some(serde_json::json!({"family": fam, "schema": trunc(&p.json, 600), "value": trunc(&format!("{v:?}"), 500), "bytes": trunc(&hex(bytes), 200)}));
+	}
+}
+
+fn run_fam<T: Fam + DeserializeOwned>(t: &mut Tape, ctx: &mut Ctx) {
+	let mut d = Defs::default();
+	let json = T::schema(t, &mut d);
+	let Some(p) = prepare(json, ctx) else { return };
+	let v = T::gen(t);
+	check_owned(T::NAME, &v, &p, t, ctx);
+}
+
+fn in_range(input: &[u8], ptr: *const u8, len: usize) -> bool {
+	let lo = input.as_ptr() as usize;
+	let hi = lo + input.len();
+	let p = ptr as usize;
+	len == 0 || (p >= lo && p + len <= hi)
+}
+
+fn run_borrowed(t: &mut Tape, ctx: &mut Ctx) {
+	let mut d = Defs::default();
+	let json = borrowed_schema(t, &mut d);
+	let Some(p) = prepare(json, ctx) else { return };
+	let o = BorrowedOwned { s: g_str(t), b: gen_bytes(t, 200), c: g_str(t), v: g_vec(t, 5, g_str), o: g_opt(t, g_str), m: g_map(t, 4, g_str), n: gen_i32(t) };
+	let v = Borrowed { s: &o.s, b: &o.b, c: Cow::Borrowed(&o.c), v: o.v.iter().map(|s| s.as_str()).collect(), o: o.o.as_deref(), m: o.m.iter().map(|(k, v)| (k.as_str(), v.as_str())).collect(), n: o.n };
+	let Some((bytes, alt)) = ser_and_relayout("borrowed", &v, &p, t, ctx) else { return };
+	for (which, data) in [("crate-bytes", &bytes), ("reference-layout", &alt)] {
+		match serde_avro_fast::from_datum_slice::<Borrowed>(data, &p.cs) {
+			Ok(back) => {
+				if back != v {
+					ctx.violation("C01/typed/round-trip-mismatch/slice/borrowed", format!("schema {} value {:?} -> {which} {} -> {:?}", p.json, v, hex(data), back));
+				}
+				let mut outside = Vec::new();
+				if !in_range(data, back.s.as_ptr(), back.s.len()) {
+					outside.push("s");
+				}
+				if !in_range(data, back.b.as_ptr(), back.b.len()) {
+					outside.push("b");
+				}
+				if let Cow::Borrowed(c) = &back.c {
+					if !in_range(data, c.as_ptr(), c.len()) {
+						outside.push("c");
+					}
+				}
+				if back.v.iter().any(|s| !in_range(data, s.as_ptr(), s.len())) {
+					outside.push("v[]");
+				}
+				if back.o.map_or(false, |s| !in_range(data, s.as_ptr(), s.len())) {
+					outside.push("o");
+				}
+				if back.m.iter().any(|(k, x)| !in_range(data, k.as_ptr(), k.len()) || !in_range(data, x.as_ptr(), x.len())) {
+					outside.push("m{}");
+				}
+				if !outside.is_empty() {
+					ctx.violation("C01/borrow-outside-input", format!("typed borrowed family: fields {outside:?} do not point into the input slice"));
+				}
+				ctx.label("borrowed-deliveries");
+			}
+			Err(e) => ctx.violation("C01/typed/deserialize-failed/slice/borrowed", format!("schema {} value {:?} -> {which} {}: {e}", p.json, v, hex(data))),
+		}
+	}
+	finish("borrowed", &v, &p, &bytes, ctx);
+}
+
+fn run_unions(t: &mut Tape, ctx: &mut Ctx) {
+	let case = UnionsCase::draw(t);
+	let mut d = Defs::default();
+	let json = case.schema(t, &mut d);
+	let Some(p) = prepare(json, ctx) else { return };
+	let v = case.gen(t);
+	ctx.label(format!("typed:union-branches:{}", case.present.len().min(6)));
+	check_owned("enum-as-union", &v, &p, t, ctx);
+}
+
+/// top-level values that are not records
+fn run_toplevel(t: &mut Tape, ctx: &mut Ctx) {
+	fn go<T: Serialize + DeserializeOwned + PartialEq + Debug>(json: &str, v: T, t: &mut Tape, ctx: &mut Ctx) {
+		let Some(p) = prepare(json.to_string(), ctx) else { return };
+		check_owned("toplevel", &v, &p, t, ctx);
+	}
+	match t.below(9) {
+		0 => go("\"long\"", gen_i64(t), t, ctx),
+		1 => go("\"string\"", g_str(t), t, ctx),
+		2 => go("\"bytes\"", ByteBuf::from(gen_bytes(t, 300)), t, ctx),
+		3 => {
+			let j = if t.bool() { r#"["null","long"]"# } else { r#"["long","null"]"# };
+			go(j, g_opt(t, gen_i64), t, ctx)
+		}
+		4 => go(r#"{"type":"map","values":{"type":"array","items":"int"}}"#, g_map(t, 6, |t| g_vec(t, 6, gen_i32)).into_iter().collect::<HashMap<_, _>>(), t, ctx),
+		5 => go(r#"{"type":"array","items":["null","string"]}"#, g_vec(t, 10, |t| g_opt(t, g_str)), t, ctx),
+		6 => go("\"double\"", g_f64(t), t, ctx),
+		7 => go(r#"{"type":"enum","name":"tns.Suit","symbols":["Spades","Hearts","Diamonds","Clubs"]}"#, g_suit(t), t, ctx),
+		_ => go("\"boolean\"", t.bool(), t, ctx),
+	}
+}
+
+pub fn run_typed(t: &mut Tape, ctx: &mut Ctx) {
+	match t.below(8) {
+		0 => run_fam::<Prims>(t, ctx),
+		1 => run_fam::<Opts>(t, ctx),
+		2 => run_fam::<Colls>(t, ctx),
+		3 => run_unions(t, ctx),
+		4 => run_fam::<Tree>(t, ctx),
+		5 => run_fam::<Logical>(t, ctx),
+		6 => run_borrowed(t, ctx),
+		_ => run_toplevel(t, ctx),
+	}
 }
